@@ -74,3 +74,98 @@ pub fn planar_family(nmax: usize) -> Vec<(String, Diagram)> {
 pub fn code_string(d: &Diagram) -> String {
     format!("{:?}", d.pd()).replace(' ', "")
 }
+
+// ---- isotopy moves -------------------------------------------------------------------------------
+
+/// all single PD-level moves from `d` that keep the link type: Reidemeister I (4 kinks on every
+/// edge), every crossing reorder (n <= 3; cyclic shifts and reversal beyond), reversal of all
+/// orientations.  (R2/R3/Markov moves live at the braid level, see `braid_moves`.)
+pub fn pd_moves(d: &Diagram, with_r1: bool) -> Vec<(String, Diagram)> {
+    let mut out = vec![];
+    if with_r1 {
+        for o in d.out_darts() {
+            for pos in [true, false] {
+                for uf in [true, false] {
+                    out.push((format!("R1(dart{o},{},{})", if pos { '+' } else { '-' }, if uf { "under-first" } else { "over-first" }), d.r1(o, pos, uf)));
+                }
+            }
+        }
+    }
+    if d.n >= 2 {
+        if d.n <= 3 {
+            for p in vcore::reflink::all_permutations(d.n).into_iter().skip(1) {
+                out.push((format!("reorder{p:?}").replace(' ', ""), d.reorder(&p)));
+            }
+        } else {
+            let n = d.n;
+            for k in 1..n {
+                let p: Vec<usize> = (0..n).map(|i| (i + k) % n).collect();
+                out.push((format!("reorder{p:?}").replace(' ', ""), d.reorder(&p)));
+            }
+            let p: Vec<usize> = (0..n).rev().collect();
+            out.push((format!("reorder{p:?}").replace(' ', ""), d.reorder(&p)));
+        }
+    }
+    out.push(("reverse-all".into(), d.reverse_all()));
+    out
+}
+
+/// all single braid-level moves from (strands, word): R2 (insert a cancelling pair anywhere),
+/// far commutation, R3 (braid relation in all valid sign patterns), conjugation (rotation),
+/// Markov stabilisation (+/-).  Only moves whose result has no free loop are returned.
+pub fn braid_moves(strands: usize, w: &[i32], max_len: usize) -> Vec<(String, usize, Vec<i32>)> {
+    let mut out: Vec<(String, usize, Vec<i32>)> = vec![];
+    let n = w.len();
+    // R2
+    if n + 2 <= max_len {
+        for pos in 0..=n {
+            for i in 1..strands as i32 {
+                for s in [1, -1] {
+                    let mut v = w.to_vec();
+                    v.insert(pos, s * i);
+                    v.insert(pos + 1, -s * i);
+                    out.push((format!("R2(pos{pos},{})", s * i), strands, v));
+                }
+            }
+        }
+    }
+    // far commutation
+    for p in 0..n.saturating_sub(1) {
+        if (w[p].abs() - w[p + 1].abs()).abs() >= 2 {
+            let mut v = w.to_vec();
+            v.swap(p, p + 1);
+            out.push((format!("commute(pos{p})"), strands, v));
+        }
+    }
+    // R3
+    for p in 0..n.saturating_sub(2) {
+        let (a, b, c) = (w[p], w[p + 1], w[p + 2]);
+        if a.abs() == c.abs() && (a.abs() - b.abs()).abs() == 1 {
+            let (e, dl, zt) = (a.signum(), b.signum(), c.signum());
+            if !(e == zt && e != dl) {
+                let (i, j) = (a.abs(), b.abs());
+                let mut v = w.to_vec();
+                v[p] = zt * j;
+                v[p + 1] = dl * i;
+                v[p + 2] = e * j;
+                out.push((format!("R3(pos{p})"), strands, v));
+            }
+        }
+    }
+    // conjugation
+    if n >= 2 {
+        let mut v = w.to_vec();
+        v.rotate_left(1);
+        out.push(("conjugate".into(), strands, v));
+    }
+    // stabilisation
+    if n + 1 <= max_len {
+        for s in [1, -1] {
+            let mut v = w.to_vec();
+            v.push(s * strands as i32);
+            out.push((format!("stabilise({s})"), strands + 1, v));
+        }
+    }
+    out.retain(|(_, s, v)| braid_closure(*s, v).is_some());
+    out
+}
